@@ -165,7 +165,7 @@ EXTRA = {
         "regenerated from the source write the model's tabeam; that sorted(set(sorted pairs)) is the triangular enumeration of the sorted labels is proved.",
  "C11": " C11_code_pair_defaults/_eam_defaults/_dlpoly_cutoffs/_lammps_cutoffs: the four extract_cutoffs methods of the tabulation factories regenerated from the source fill in exactly "
         "cutoff 10, nr 1001, cutoff_rho 100, nrho 1001 and refuse exactly the row counts the targets cannot lay out. C11_code_create_tabulation_pair/_dlpoly/_lammps/_eam: create_tabulation of the four factory classes, regenerated with class dispatch checked against the method resolution order, hands the constructor the section's grid, each value from its own key.",
- "C13": " C13_code_views: the four filtered properties of FilteredConfigParser regenerated from the source are filteredView.",
+ "C13": " C13_code_views: the four filtered properties of FilteredConfigParser regenerated from the source are filteredView. C13_code_cli_species(_corner): the species choice of potable's _do_tabulation, regenerated and composed with the constructor's reading (C13_code_filter_init): --include-species decides even when given without a label (include-mode, empty set), otherwise a non-empty --exclude-species list is excluded, otherwise there is no view; validated behind the real argument parser.",
  "C14": " C14_code_apply_overrides: the override / removal / addition loops of _init_config_parser regenerated from the source, run on the model's parser operations, are applyOps for every "
         "file and operation lists; C14_code_parse_item_value/_novalue, C14_code_cli_operations, C14_cli_dict_model: the command-line layer (_create_override_tuple, _item_id, the ordered "
         "dictionary of _make_config_parser) regenerated from the source is cliOverrides. C14_empty_section_*/C14_code_empty_section: an item of a section without a name is rejected by model and regenerated code alike. C14_code_list_items(_complete), C14_code_item_value_of_listed: _list_items with parsed_sections / orphan_sections regenerated from the source lists every section of the file exactly once, and _item_value returns each listed item's value.",
